@@ -44,6 +44,11 @@ pub enum Amf0SerializationError {
     #[error("String length greater than 65,535")]
     NormalStringTooLong,
 
+    /// Object properties are written as a name and value pair, and an empty name marks the
+    /// end of the object.  A property with an empty name therefore can not be encoded.
+    #[error("Object property names can not be empty")]
+    EmptyObjectPropertyName,
+
     /// Arrays and objects were nested deeper than the deserializer accepts, so the
     /// encoded bytes could not be read back.
     #[error("Arrays and objects are nested too deeply")]
